@@ -313,6 +313,7 @@ type Exec struct {
 	effSeen  map[string]bool
 	exitSeen map[string]bool
 	pure     map[*types.Func]bool
+	enums    map[*types.Named][]string
 }
 
 // New prepares an exploration of a function body.
@@ -1086,7 +1087,10 @@ func (x *Exec) valueTerm(st *State, e ast.Expr, env *Env) Term {
 	switch v := e.(type) {
 	case *ast.UnaryExpr:
 		if v.Op == token.AND {
-			return Sym("&" + x.ValueName(st, v.X, env))
+			if _, isLit := ast.Unparen(v.X).(*ast.CompositeLit); isLit {
+				return Sym("&" + x.ValueName(st, v.X, env))
+			}
+			return Sym("&" + x.LocKey(st, v.X, env))
 		}
 	case *ast.StarExpr:
 		bt := x.valueTerm(st, v.X, env)
@@ -1528,6 +1532,24 @@ func (x *Exec) evalCmp2(st *State, a ast.Expr, op token.Token, b ast.Expr, envA,
 			return res
 		}
 	}
+	// enum-typed value against one of its named constants: finite-domain variable
+	if op == token.EQL || op == token.NEQ {
+		sym, cst, typ := ta, tb, x.P.TypeOf(b)
+		if ta.K == KConst && tb.K == KSym {
+			sym, cst, typ = tb, ta, x.P.TypeOf(a)
+		}
+		if sym.K == KSym && cst.K == KConst && !isNumeric(cst.S) {
+			if dom := x.enumDom(typ); dom != nil {
+				v := "enum:" + sym.S
+				x.DeclareVar(v, dom)
+				var res []OutB
+				for _, r := range x.Resolve(st, Ref(v)) {
+					res = append(res, OutB{r.St, (r.V == cst.S) == (op == token.EQL)})
+				}
+				return res
+			}
+		}
+	}
 	// integer against constant: atom "X>=c" / "X==c"
 	if isIntegerType(x.P.TypeOf(a)) || isIntegerType(x.P.TypeOf(b)) {
 		ca, oka := x.P.ConstInt(a)
@@ -1568,6 +1590,47 @@ func (x *Exec) evalCmp2(st *State, a ast.Expr, op token.Token, b ast.Expr, envA,
 		res = append(res, OutB{r.St, OrdHolds(r.V, op)})
 	}
 	return res
+}
+
+// enumDom returns the named constants of an enum-like type of the analysed
+// package (plus "<other>"), or nil.
+func (x *Exec) enumDom(t types.Type) []string {
+	n, ok := t.(*types.Named)
+	if !ok || n.Obj().Pkg() != x.P.Types {
+		return nil
+	}
+	if _, isInt := n.Underlying().(*types.Basic); !isInt {
+		return nil
+	}
+	if d, ok := x.enums[n]; ok {
+		return d
+	}
+	type kv struct {
+		name string
+		pos  token.Pos
+	}
+	var cs []kv
+	sc := x.P.Types.Scope()
+	for _, name := range sc.Names() {
+		if c, ok := sc.Lookup(name).(*types.Const); ok && types.Identical(c.Type(), t) {
+			cs = append(cs, kv{name, c.Pos()})
+		}
+	}
+	sort.Slice(cs, func(i, j int) bool { return cs[i].pos < cs[j].pos })
+	var dom []string
+	for _, c := range cs {
+		dom = append(dom, c.name)
+	}
+	if len(dom) < 2 {
+		dom = nil
+	} else {
+		dom = append(dom, "<other>")
+	}
+	if x.enums == nil {
+		x.enums = map[*types.Named][]string{}
+	}
+	x.enums[n] = dom
+	return dom
 }
 
 // OrdHolds reports whether `a op b` holds when compare(a,b) == ord.
